@@ -61,6 +61,15 @@ def walk(fb, name, found, n=3):
                 if not is_name(a[1]):
                     return absint.UNKNOWN
                 return machine.some(Tok("slot", a0.tag)) if a0.tag in found else machine.none()
+            if callee_matches(tt, "std::ops::Index>::index", "std::ops::Index::index") and len(a) > 1:
+                # map[name]: the slot, or a panic when the frame does not bind the name
+                ev["lookups"].append(a0.tag)
+                if not is_name(a[1]):
+                    return absint.UNKNOWN
+                if a0.tag not in found:
+                    mc.events.append(("panic", "map[key] on an absent key", g.name if g else "?"))
+                    return absint.UNKNOWN
+                return Tok("slot", a0.tag)
             if c.endswith("HashMap::entry") and len(a) > 1:
                 # the entry API: Occupied / Vacant as the frame binds the name or not; what is done with the entry is recorded below
                 ev["lookups"].append(a0.tag)
@@ -202,7 +211,9 @@ def table(ctx, fb, rule, name, n=3):
             want = ("Some(binding of frame %s)" % inner) if found else "None"
             got = "%s %s" % (r["result"], r["result_binding"])
         else:  # define
-            ok = r["inserts"] == [("insert", 0, True, True)] and not r["stores"]
+            # (overwriting the binding the innermost frame already has, in place, is the same effect as inserting over it)
+            ok = (r["inserts"] == [("insert", 0, True, True)] and not r["stores"]) or \
+                 (0 in found and not r["inserts"] and r["stores"] == [(0, True)])
             want = "one insert of (name, value) into frame 0"
             got = "inserts %s stores %s%s" % (r["inserts"], r["stores"], (" calls " + str(r["other"])) if r["other"] else "")
         if r.get("panics"):
